@@ -270,14 +270,14 @@ theorem C11_thread_finishes (y : Sys) (t : Nat) :
     then thread 1 looks): thread 1 returns `...` — an incomplete rendering of an acyclic object. -/
 theorem C11_shared_state_breaks :
     ((reprNode wHeap false wHeap.fuel 0).run (entry true)).2 = .ok "C(a=1)" ∧
-    ((wShared.exec [0, 0, 1]).pr 1).result? = some (.ok "...") := by
+    ((wShared.exec [0, 0, 0, 1, 1]).pr 1).result? = some (.ok "...") := by
   constructor <;> decide
 
 /-- a second schedule: both threads pass the membership test before either adds; the second
     `remove` then fails — thread 1's `repr` raises KeyError -/
 theorem C11_shared_state_breaks_keyerror :
-    ((wShared.exec [0, 1, 0, 1, 0, 1]).pr 0).result? = some (.ok "C(a=1)") ∧
-    ((wShared.exec [0, 1, 0, 1, 0, 1]).pr 1).result? = some (.exc "keyError") := by
+    ((wShared.exec [0, 0, 1, 1, 0, 1, 0, 1]).pr 0).result? = some (.ok "C(a=1)") ∧
+    ((wShared.exec [0, 0, 1, 1, 0, 1, 0, 1]).pr 1).result? = some (.exc "keyError") := by
   constructor <;> decide
 
 /-- **C11_shared_sequential_ok**: the shared variant is indistinguishable from the real one as long
@@ -296,19 +296,16 @@ theorem C11_shared_sequential_ok (h : Heap) (armed warm : Bool) (fuel root : Nat
     `C11_thread_independent`, here by evaluation) -/
 theorem C11_per_thread_same_schedules :
     let y : Sys := { st := fun _ => entry true, pr := fun _ => reprNode wHeap false wHeap.fuel 0 }
-    ((y.exec [0, 0, 1, 1, 1, 0]).pr 1).result? = some (.ok "C(a=1)") ∧
-    ((y.exec [0, 1, 0, 1, 0, 1]).pr 1).result? = some (.ok "C(a=1)") := by
+    ((y.exec [0, 0, 0, 1, 1, 1, 1, 0]).pr 1).result? = some (.ok "C(a=1)") ∧
+    ((y.exec [0, 0, 1, 1, 0, 1, 0, 1]).pr 1).result? = some (.ok "C(a=1)") := by
   constructor <;> decide
 
 /-! ### the model satisfies the specification -/
 
-/-- **C11_model_meets_spec**: on every well-formed case the stateful, thread-interleaved model of
-    the generated code yields what the stateless ancestor-path specification demands: first
-    rendering (faults armed), no residue, complete second rendering, `str`, and every thread of
-    the concurrent scenario under the case's schedule. -/
-theorem C11_model_meets_spec (c : Case) (hwf : wf c = true) (_ : known c = []) :
+/-- the only part of well-formedness the proof needs: class and scope names are identifier-like -/
+theorem C11_model_meets_spec_names (c : Case) (hcls : ∀ cl ∈ c.heap.classes, cl.wf = true) :
     spec c (model c) = true := by
-  have hE := expected_eq c hwf
+  have hE := expected_eq' c hcls
   have hacc : ∀ armed, accept (expected c armed) (expected c armed) = true :=
     fun armed => accept_self _ (expected_ne_oof c armed)
   -- the three sequential calls
@@ -363,6 +360,74 @@ theorem C11_model_meets_spec (c : Case) (hwf : wf c = true) (_ : known c = []) :
   rw [hstr, hthr, hlen]
   simp only [model, e1, e2, hacc, hres1, hres2, hres3]
   rfl
+
+/-- **C11_model_meets_spec**: on every well-formed case the stateful, thread-interleaved model of
+    the generated code yields what the stateless ancestor-path specification demands: first
+    rendering (faults armed), no residue, complete second rendering, `str`, and every thread of
+    the concurrent scenario under the case's schedule. -/
+theorem C11_model_meets_spec (c : Case) (hwf : wf c = true) (_ : known c = []) :
+    spec c (model c) = true := C11_model_meets_spec_names c (classes_wf_of_wf c hwf)
+
+/-! ### T3: the generated source text -/
+
+open Attrs.C11.IR in
+/-- **C11_script_correct**: for every field list with distinct names, every `repr_ns` and every
+    operand (instance, runtime class, attribute values, armed faults, renderer of the other nodes),
+    executing the script the model generator emits is — as a resumption, atomic step by atomic step —
+    the model's bookkeeping (`attrsRepr`) around the model's f-string over the generated fragments. -/
+theorem C11_script_correct (attrs : List Field) (ns : Option String) (env : IR.Env)
+    (hnd : (attrs.map (·.name)).Nodup) :
+    execScript (genScript attrs ns) env =
+      attrsRepr env.self
+        (render (evalName env.cls (genName ns) ++ "(") ")"
+          ((genFrags attrs).map fun fr => (fr.name ++ "=", evalFrag env.sub env.armed env.vals fr))) :=
+  execScript_gen attrs ns env hnd
+
+open Attrs.C11.IR in
+/-- hence a heap whose instances run the generated script is rendered exactly as the model renders
+    it, and a whole case observes exactly what the model observes — every theorem above is about
+    the script -/
+theorem C11_script_heap_correct (c : Case)
+    (hcls : ∀ cl ∈ c.heap.classes, sc = genScript cl.fields cl.reprNs ∧ (cl.fields.map (·.name)).Nodup) :
+    modelS sc c = model c := by
+  have hR : reprNodeS sc c.heap = reprNode c.heap := by
+    funext armed fuel id
+    exact reprNodeS_gen sc c.heap armed hcls fuel id
+  unfold modelS
+  rw [hR]
+  rfl
+
+/-- **C11_script_model_meets_spec**: the model generator's script passes the script check for every
+    well-formed class: on each member of the canonical operand family it does what `C11.spec` demands -/
+theorem C11_script_model_meets_spec (c : Script.Case) (hwf : Script.wf c = true) :
+    Script.spec c (Script.model c) = true := by
+  simp only [Script.wf, Bool.and_eq_true, decide_eq_true_eq] at hwf
+  obtain ⟨hcw, hnd⟩ := hwf
+  have hone : ∀ case ∈ Script.operands c.cls, case.heap.classes = [c.cls] := by
+    intro case hc
+    simp only [Script.operands, List.mem_append, List.mem_flatMap, List.mem_cons,
+      List.not_mem_nil, or_false] at hc
+    rcases hc with ⟨_, _, rfl | rfl⟩ | rfl <;> rfl
+  simp only [Script.spec, Script.model, Bool.or_eq_true, List.all_eq_true]
+  refine Or.inr fun case hc => ?_
+  have hcl := hone case hc
+  rw [C11_script_heap_correct case (sc := IR.genScript c.cls.fields c.cls.reprNs)
+    (fun cl hm => by rw [hcl] at hm; simp only [List.mem_singleton] at hm; subst hm; exact ⟨rfl, hnd⟩)]
+  exact C11_model_meets_spec_names case
+    (fun cl hm => by rw [hcl] at hm; simp only [List.mem_singleton] at hm; subst hm; exact hcw)
+
+/-- non-vacuity: the generated script of a concrete class (inherited field, `init=False` field with a
+    tolerant callable, `repr=False` field), executed on a self-referential instance from a fresh thread -/
+example :
+    (IR.execScript (IR.genScript exA.fields exA.reprNs)
+        { self := 0, cls := exA, vals := [("p", 0), ("h", 0)], armed := false,
+          sub := fun i => if i = 0 then IR.execScript (IR.genScript exA.fields exA.reprNs)
+                  { self := 0, cls := exA, vals := [], armed := false, sub := fun _ => .done .oof }
+                else .done .oof }).run (entry false)
+      = ({ already := some [], guard := [] }, .ok "Outer.A(p=..., q=Rq<NOTHING>)") ∧
+    (IR.genScript exA.fields exA.reprNs).hasUnknown = false ∧
+    Script.wf ⟨exA⟩ = true ∧ Script.spec ⟨exA⟩ (Script.model ⟨exA⟩) = true := by
+  refine ⟨by decide, by decide, by decide, C11_script_model_meets_spec ⟨exA⟩ (by decide)⟩
 
 /-! ### non-vacuity: concrete runs of the model -/
 
